@@ -172,6 +172,13 @@ def canonicalise_functions(F, table):
                     sims = sorted(((similarity(row.get("tokens") or {}, body_tokens(unknown[np])), np) for np in sel), reverse=True)
                     if sims[0][0] >= 0.8 and sims[0][0] - sims[1][0] >= 0.2:
                         pick = sims[0][1]
+                    else:
+                        # … or the only one among them that also has the recorded callees (a small helper extracted next to
+                        # a renamed function shares its callers, not what it calls)
+                        by_np = {np: (o, s_, c, e) for np, o, s_, c, e in feats}
+                        narrowed = [np for np in sel if by_np[np][3]]
+                        if len(narrowed) == 1 and row["callees"]:
+                            pick = narrowed[0]
                     break       # otherwise ambiguous at this tier: do not guess with a weaker one
             if pick is not None:
                 mapping[pick] = op
